@@ -218,6 +218,7 @@ fn items(tcx: TyCtxt<'_>) -> J {
                 ("vis", J::s(format!("{:?}", tcx.visibility(did)))),
                 ("inputs", J::Arr(sig.inputs().iter().map(|t| J::s(ty_str(*t))).collect())),
                 ("output", J::s(ty_str(sig.output()))),
+                ("generics", J::Arr(tcx.generics_of(did).own_params.iter().filter(|p| matches!(p.kind, rustc_middle::ty::GenericParamDefKind::Type { .. })).map(|p| J::s(p.name.to_string())).collect())),
                 ("loc", loc(tcx, tcx.def_span(did))),
             ]));
         }
